@@ -16,7 +16,7 @@ func init() {
 		return c, nil
 	})
 	spec := func(tier string) CheckSpec {
-		depth, budget := 4, 200*time.Second
+		depth, budget := 5, 270*time.Second
 		if tier == "thorough" {
 			depth, budget = 6, 30*time.Minute
 		}
